@@ -325,7 +325,16 @@ def module_faults(run, rng, n):
                                   f"module-error-line: syntax fault in a module reports {e.pos}, it is on line {want} of mod:{m3}",
                                   {"kind": "module-syntax", "module": stext, "importer": rq})
             except CklRuntimeError as e:
+                # reported as a failed require: still an error raised by module code, and its position is the
+                # module's line of the offending token (the class of the exception is not the property's business)
+                done += 1
+                want = slines[sroles["P"][0]]
                 run.drift("module-syntax-fault-as-runtime-error", str(e.msg)[:60])
+                if e.pos is None or getattr(e.pos, "filename", None) != "mod:" + m3 or e.pos.line != want:
+                    run.violation(f"module-syntax-line:{stext!r}",
+                                  f"module-error-line: syntax fault in a module is reported at {e.pos} ({str(e.msg)[:60]}), "
+                                  f"it is on line {want} of mod:{m3}",
+                                  {"kind": "module-syntax", "module": stext, "importer": rq})
     finally:
         shutil.rmtree(d, ignore_errors=True)
     return done
